@@ -333,8 +333,10 @@ SERVES = {'reject-self': ['C01', 'C07'], 'dispatch': ['C07'], 'pairing': ['C07']
 def serves(name, pid):
     if pid is None:
         return True
-    cl = name.split('/')[-1].split('[')[0]
-    return pid in SERVES.get(cl, [])
+    cl = name.partition('[')[0].split('/')[-1]
+    if cl not in SERVES:
+        raise RuntimeError(f"clause {name!r} is mapped to no property (SERVES)")     # never drop a clause silently
+    return pid in SERVES[cl]
 
 
 def judge_transfer(I, out, mode, info, q):
